@@ -1,7 +1,8 @@
 /-
-  C07 — no lossless stream is accepted that the reference decoder rejects.  (first instalment)
+  C07 — no lossless stream is accepted that the reference decoder rejects.  
 -/
 import MediaSan.Vp8l.Lossless
+import MediaSan.Lemmas.Kraft
 namespace MediaSan.Props.C07
 open MediaSan MediaSan.Vp8l MediaSan.Generated
 
@@ -55,6 +56,107 @@ theorem C07_reject_lz77_symbol (s : Nat) (h : lz77MaxSymbol < s) : readLz77 s = 
   have h3 : ¬ s ≤ 3 := by unfold lz77MaxSymbol at h; omega
   have h4 : ¬ s ≤ lz77MaxSymbol := by omega
   simp [readLz77, h3, h4]
+
+theorem newCode_err (lens : List (Nat × Nat)) : (∃ c, newCode lens = .ok c) ∨ newCode lens = .error .invalidPrefixCode := by
+  unfold newCode fromSymbols
+  cases compileReadTree (canonicalSymbols lens) with
+  | ok t => left; exact ⟨_, rfl⟩
+  | error e => right; rfl
+
+/-- incomplete or over-subscribed prefix code: EVERY code-length vector that is neither the single symbol of
+    length 1 nor Kraft-complete (Σ 2^(H−len) = 2^H) is refused with InvalidVp8lPrefixCode by the builder every
+    prefix code of a stream goes through (simple codes, normal codes and the code-length code alike) -/
+theorem C07_reject_incomplete_or_oversubscribed (lens : List (Nat × Nat)) (H : Nat) (hH : ∀ x ∈ lens, x.2 ≤ H)
+    (hsingle : ¬ ∃ s, (sortByLenSym lens).filter (fun x => x.2 ≠ 0) = [(s, 1)]) (hk : kraftW H lens ≠ 2 ^ H) :
+    newCode lens = .error .invalidPrefixCode := by
+  rcases newCode_err lens with ⟨c, hc⟩ | h
+  · rcases newCode_kraft lens c H hH hc with h1 | h2
+    · exact absurd h1 hsingle
+    · exact absurd h2 hk
+  · exact h
+
+/-- duplicate transform: one round of the transform loop of `LosslessImage::read` - when the transform just read
+    has a type already seen, the whole read fails with InvalidInput, whatever follows -/
+theorem C07_reject_duplicate_transform (cfg : LCfg) (height fuel width : Nat) (seen : List TransformType)
+    (b : ByteArray) (p p1 p2 : Nat) (ty : TransformType) (width' : Nat)
+    (hbit : readBit b p = .ok (true, p1)) (ht : readTransform cfg width height b p1 = .ok ((ty, width'), p2))
+    (hdup : ty ∈ seen) :
+    readTransforms cfg height (fuel + 1) width seen b p = .error .invalidInput := by
+  simp [readTransforms, hbit, ht, ensure, hdup]
+
+/-- invalid predictor (and every per-pixel callback verdict): a literal pixel of a sub-image whose green value the
+    callback refuses fails the pixel loop of `EntropyCodedImage::read` with InvalidInput -/
+theorem C07_reject_predictor (g : Group) (cache : Option Nat) (width total fuel idx acc : Nat) (check : Nat → Bool)
+    (b : ByteArray) (p p1 p2 p3 p4 sym r bl a : Nat) (hidx : idx < total)
+    (h1 : readSym g.green b p = .ok (sym, p1)) (hs : sym < 256)
+    (h2 : readSym g.red b p1 = .ok (r, p2)) (h3 : readSym g.blue b p2 = .ok (bl, p3))
+    (h4 : readSym g.alpha b p3 = .ok (a, p4)) (hbad : check sym = false) :
+    pixelLoop g cache width total check (fuel + 1) idx acc b p = .error .invalidInput := by
+  have : ¬ idx ≥ total := by omega
+  simp [pixelLoop, this, h1, hs, h2, h3, h4, ensure, hbad]
+
+/-- back-reference before the start or past the end of a sub-image, on the pixel loop itself: a length/distance
+    pair whose distance exceeds the pixels decoded so far, or whose length exceeds the pixels left, is InvalidInput -/
+theorem C07_reject_backref (g : Group) (cache : Option Nat) (width total fuel idx acc : Nat) (check : Nat → Bool)
+    (b : ByteArray) (p p1 p2 p3 p4 sym len dsym dcode : Nat) (hidx : idx < total)
+    (h1 : readSym g.green b p = .ok (sym, p1)) (hs : 256 ≤ sym) (hs' : sym < 280)
+    (h2 : readLz77 (sym - 256) b p1 = .ok (len, p2)) (h3 : readSym g.dist b p2 = .ok (dsym, p3))
+    (h4 : readLz77 dsym b p3 = .ok (dcode, p4))
+    (hbad : idx < distOf dcode width ∨ total - idx < len) :
+    pixelLoop g cache width total check (fuel + 1) idx acc b p = .error .invalidInput := by
+  have h0 : ¬ idx ≥ total := by omega
+  have hs2 : ¬ sym < 256 := by omega
+  rcases hbad with hb | hb
+  · have : ¬ distOf dcode width ≤ idx := by omega
+    simp [pixelLoop, h0, h1, hs2, hs', h2, h3, h4, ensure, this]
+  · have : ¬ len ≤ total - idx := by omega
+    by_cases hd : distOf dcode width ≤ idx
+    · simp [pixelLoop, h0, h1, hs2, hs', h2, h3, h4, ensure, this, hd]
+    · simp [pixelLoop, h0, h1, hs2, hs', h2, h3, h4, ensure, hd]
+
+/-- symbol outside its alphabet (colour-cache index at or above the cache size) -/
+theorem C07_reject_cache_index (g : Group) (cache : Option Nat) (width total fuel idx acc : Nat) (check : Nat → Bool)
+    (b : ByteArray) (p p1 sym : Nat) (hidx : idx < total)
+    (h1 : readSym g.green b p = .ok (sym, p1)) (hs : 280 ≤ sym) (hbad : cacheLen cache ≤ sym - 280) :
+    pixelLoop g cache width total check (fuel + 1) idx acc b p = .error .invalidInput := by
+  have h0 : ¬ idx ≥ total := by omega
+  have hs2 : ¬ sym < 256 := by omega
+  have hs3 : ¬ sym < 280 := by omega
+  have : ¬ sym - 280 < cacheLen cache := by omega
+  simp [pixelLoop, h0, h1, hs2, hs3, ensure, this]
+
+/-- over-long repeat run: a repeat code (16/17/18) that would write past the alphabet ends the code-length loop of
+    `read_prefix_code` with InvalidVp8lPrefixCode -/
+theorem C07_reject_repeat_overrun (clc : Code) (maxCount reads n last : Nat) (syms : List (Nat × Nat))
+    (b : ByteArray) (p p1 p2 code x : Nat) (hn : n ≠ maxCount)
+    (h1 : readSym clc b p = .ok (code, p1))
+    (hrep : (code = 16 ∧ readBits repeatBits16 b p1 = .ok (x, p2) ∧ maxCount < n + (repeatBase16 + x)) ∨
+            (code = 17 ∧ readBits repeatBits17 b p1 = .ok (x, p2) ∧ maxCount < n + (repeatBase17 + x)) ∨
+            (code = 18 ∧ readBits repeatBits18 b p1 = .ok (x, p2) ∧ maxCount < n + (repeatBase18 + x))) :
+    readCodeLengths clc maxCount (reads + 1) n last syms b p = .error .invalidPrefixCode := by
+  rcases hrep with ⟨hc, hx, hov⟩ | ⟨hc, hx, hov⟩ | ⟨hc, hx, hov⟩
+  · have : ¬ n + (repeatBase16 + x) ≤ maxCount := by omega
+    subst hc
+    simp [readCodeLengths, hn, h1, hx, ensure, this, pure, BR.pure]
+  · have : ¬ n + (repeatBase17 + x) ≤ maxCount := by omega
+    subst hc
+    simp [readCodeLengths, hn, h1, hx, ensure, this, pure, BR.pure]
+  · have : ¬ n + (repeatBase18 + x) ≤ maxCount := by omega
+    subst hc
+    simp [readCodeLengths, hn, h1, hx, ensure, this, pure, BR.pure]
+
+/-- over-long symbol count: an explicit max_symbol above the alphabet size is InvalidInput -/
+theorem C07_reject_symbol_count (cfg : LCfg) (alphabet : Nat) (b : ByteArray) (p p1 p2 p3 p4 p5 k v : Nat) (clc : Code)
+    (h1 : readBit b p = .ok (false, p1)) (h2 : readCodeLengthCode cfg b p1 = .ok (clc, p2))
+    (h3 : readBit b p2 = .ok (true, p3)) (h4 : readBits 3 b p3 = .ok (k, p4))
+    (h5 : readBits (2 + 2 * k) b p4 = .ok (v, p5)) (hbad : alphabet < min (2 + v) u16Max) :
+    readPrefixCode cfg alphabet b p = .error .invalidInput := by
+  have : ¬ min (2 + v) u16Max ≤ alphabet := by omega
+  simp [readPrefixCode, h1, h2, h3, h4, h5, ensure, this, pure, BR.pure]
+
+-- Non-vacuity: an incomplete and an over-subscribed vector meet the hypotheses of the prefix-code theorem
+example : (sortByLenSym [(0,2),(1,2),(2,2)]).filter (fun x => x.2 ≠ 0) = [(0,2),(1,2),(2,2)] ∧
+    kraftW 2 [(0,2),(1,2),(2,2)] = 3 ∧ kraftW 1 [(0,1),(1,1),(2,1)] = 3 := by decide
 
 -- Non-vacuity: the documentation's 1x1 example stream is accepted by the model; a flipped cache order is not
 example : validate (ByteArray.mk #[0x88, 0x88, 0x08]) 1 1 = .ok () := by decide
